@@ -11,8 +11,8 @@
 using namespace vf;
 
 static const char *feat(int i) {
-  static const char *n[] = {"n_ge_16_and_3_reallocations", "start_inline", "start_reserved", "start_after_shrink", "size_type_limit_reached", "reserve_probe", "shrink_probe"};
-  return i < 7 ? n[i] : 0;
+  static const char *n[] = {"n_ge_16_and_3_reallocations", "start_inline", "start_reserved", "start_after_shrink", "size_type_limit_reached", "reserve_probe", "shrink_probe", "bulk_growth_out_of_inline", "bulk_growth_on_heap", "stolen_buffer_not_above_N"};
+  return i < 10 ? n[i] : 0;
 }
 static int ceil_log2(unsigned long n) {
   int k = 0;
@@ -133,6 +133,121 @@ static void reserve_case(const char *name, long k, long r) {
   enum_end(k > 0 && r > k);
 }
 
+
+// One growing operation that adds c elements at once to a vector of k elements: whenever it has to change the capacity, the new one
+// covers the need and is at least 1.5 times the old one (the inline N for a SmallVector that is still inline), with one allocator request.
+// op: 0 append(c, v), 1 insert(pos, c, v), 2 insert(pos, first, last), 3 resize(k + c), 4 resize(k + c, v), 5 insert(pos, ilist of 3), 6 append(first, last)
+template <class V>
+static void bulk_case(const char *name, int start, long k, int op, long c) {
+  typedef typename V::value_type E;
+  typedef typename V::size_type ST;
+  const long N = static_cast<long>(V::kInlineCapacity);
+  const long stmax = static_cast<long>(std::min<unsigned long long>(std::numeric_limits<ST>::max(), 100000000ull));
+  if (op == 5 && c != 3) return;
+  if (k + c > stmax) return;
+  char key[160];
+  snprintf(key, sizeof key, "bulk %s start=%d k=%ld op=%d c=%ld", name, start, k, op, c);
+  if (!enum_begin(key)) return;
+  ledgers_reset();
+  aledger_reset();
+  bool nontriv = false;
+  {
+    V v;
+    for (long q = 0; q < k; ++q) v.emplace_back(1);
+    if (start == 3) v.shrink_to_fit();
+    const long cap = static_cast<long>(v.capacity());
+    const uint64_t req0 = aledger().requests;
+    std::vector<E> src;
+    src.reserve(static_cast<size_t>(c));
+    for (long q = 0; q < c; ++q) src.push_back(ET<E>::make(3));
+    const E val = ET<E>::make(2);
+    const long pos = k / 2;
+    switch (op) {
+      case 0: v.append(static_cast<ST>(c), val); break;
+      case 1: v.insert(v.begin() + pos, static_cast<ST>(c), val); break;
+      case 2: v.insert(v.begin() + pos, src.begin(), src.end()); break;
+      case 3: v.resize(static_cast<ST>(k + c)); break;
+      case 4: v.resize(static_cast<ST>(k + c), val); break;
+      case 5: v.insert(v.begin() + pos, {ET<E>::make(4), ET<E>::make(5), ET<E>::make(6)}); break;
+      default: v.append(src.begin(), src.end()); break;
+    }
+    const long c2 = static_cast<long>(v.capacity());
+    if (static_cast<long>(v.size()) != k + c) violation(P18, "size is %ld after adding %ld elements to %ld", static_cast<long>(v.size()), c, k);
+    if (c2 < k + c) violation(P18, "capacity %ld below size %ld", c2, k + c);
+    if (k + c <= cap) {
+      if (c2 != cap) violation(P18, "capacity changed from %ld to %ld although %ld elements fit", cap, c2, k + c);
+    } else {
+      if (cap > 0 && c2 < stmax && 2 * c2 < 3 * cap)
+        violation(P18, "growing operation %d (%ld + %ld elements) took the capacity from %ld to %ld: factor below 1.5 without being limited by size_type", op, k, c, cap, c2);
+      if (alloc_on_ledger<typename V::allocator_type>::value && aledger().requests - req0 != 1)
+        violation(P18, "growing operation %d made %lu allocator requests", op, (unsigned long)(aledger().requests - req0));
+      if (N > 0 && cap == N) feature(7);
+      else feature(8);
+      nontriv = cap > 0;
+    }
+  }
+  if (!failed() && (cells().live != 0 || aledger().outstanding != 0)) violation(P18 | P02, "leak");
+  enum_end(nontriv);
+}
+
+// shrink_to_fit on a SmallVector whose heap buffer was taken over from an amc::vector (construction or assignment from vector&&, swap2):
+// such a buffer may be full and not larger than N, the elements then fit inline and must come back there
+template <class V, bool Small = (V::kInlineCapacity > 0)>
+struct StealCase {
+  static void run(const char *, int, long, long) {}
+};
+template <class V>
+struct StealCase<V, true> {
+  static void run(const char *name, int how, long k, long extra) {
+    typedef typename V::value_type E;
+    typedef typename V::size_type ST;
+    typedef amc::vector<E, typename V::allocator_type, ST> Src;
+    const long N = static_cast<long>(V::kInlineCapacity);
+    char key[160];
+    snprintf(key, sizeof key, "steal %s how=%d k=%ld extra=%ld", name, how, k, extra);
+    if (!enum_begin(key)) return;
+    ledgers_reset();
+    aledger_reset();
+    {
+      Src src;
+      for (long q = 0; q < k; ++q) src.emplace_back(static_cast<int>(q + 1));
+      src.shrink_to_fit();
+      if (extra > 0) src.reserve(static_cast<ST>(k + extra));
+      V v0;
+      if (how == 1)
+        for (long q = 0; q < 2; ++q) v0.emplace_back(9);
+      if (how == 2)
+        for (long q = 0; q < N + 2; ++q) v0.emplace_back(9);
+      V v = how == 0 ? V(std::move(src)) : std::move(v0);
+      if (how != 0) v.swap2(src);
+      if (k > 0 && k <= N) feature(9);
+      v.shrink_to_fit();
+      const long size = static_cast<long>(v.size()), cap = static_cast<long>(v.capacity());
+      if (size != k) violation(P18, "size %ld instead of %ld", size, k);
+      for (long q = 0; q < size && !failed(); ++q)
+        if (val_of(v[static_cast<ST>(q)]) != q + 1) violation(P18 | P01, "element %ld changed", q);
+      if (size <= N ? cap != N : cap != size) violation(P18, "shrink_to_fit with size %ld (N=%ld) after taking over a vector's buffer leaves capacity %ld", size, N, cap);
+      const char *b = reinterpret_cast<const char *>(&v), *q = reinterpret_cast<const char *>(v.data());
+      const bool inl = q >= b && q < b + sizeof(V);
+      if (size <= N && !inl) violation(P18, "shrink_to_fit with size %ld <= N=%ld after taking over a vector's buffer does not come back to the inline storage", size, N);
+      src.clear();
+      src.shrink_to_fit();
+      if (alloc_on_ledger<typename V::allocator_type>::value && size <= N && aledger().outstanding != 0)
+        violation(P18, "shrink_to_fit with size %ld (N=%ld) keeps %u heap block(s)", size, N, aledger().outstanding);
+      // and the vector goes on growing geometrically from there
+      long c0 = cap;
+      for (long q = 0; q < 3 * N + 8 && !failed(); ++q) {
+        v.emplace_back(7);
+        long c2 = static_cast<long>(v.capacity());
+        if (c2 != c0 && 2 * c2 < 3 * c0) violation(P18, "capacity grew from %ld to %ld after shrink_to_fit", c0, c2);
+        c0 = c2;
+      }
+    }
+    if (!failed() && (cells().live != 0 || aledger().outstanding != 0)) violation(P18 | P02, "leak");
+    enum_end(k > 0);
+  }
+};
+
 template <class V>
 static void run_config(const char *name) {
   const bool thorough = est().thorough;
@@ -157,6 +272,19 @@ static void run_config(const char *name) {
   for (long k = 0; k <= 12; ++k)
     for (long r = 0; r <= 40; ++r) reserve_case<V>(name, k, r);
   for (long r = 41; r <= 120; r += 13) reserve_case<V>(name, 7, r);
+  // bulk growth: every fill of the inline buffer (or 0..12 for a plain vector) x every operation x counts around N and 1.5 N
+  const long kmax = N > 0 ? N : 12;
+  for (int start = 1; start <= 3; start += 2)
+    for (long k = 0; k <= kmax; ++k)
+      for (int op = 0; op <= 6; ++op)
+        for (long c = 1; c <= 2 * kmax + 3; ++c) bulk_case<V>(name, start, k, op, c);
+  static const long bk[] = {17, 40, 100};
+  for (unsigned a = 0; a < 3; ++a)
+    for (int op = 0; op <= 6; ++op)
+      for (long c = 1; c <= 2 * bk[a]; c += 1 + c / 4) bulk_case<V>(name, 1 + 2 * static_cast<int>(a & 1), bk[a], op, c);
+  for (int how = 0; how <= 2; ++how)
+    for (long k = 0; k <= 2 * N + 2; ++k)
+      for (long extra = 0; extra <= 2; ++extra) StealCase<V>::run(name, how, k, extra);
 }
 
 int main(int argc, char **argv) {
